@@ -678,6 +678,27 @@ def gen_link_spec(rng: Any, frameworks: Sequence[str] = ("pa", "pd", "py"), nsrc
     return {"sources": srcs, "links": links, "consumer": consumer}
 
 
+def gen_long_chain_spec(rng: Any) -> Dict[str, Any]:
+    """Four or five sources, each on its own compute framework, joined by a chain of inner links S1 <- S2 <- ... <- Sn that are all
+    oriented the same way, the consumer on the framework of the chain's head: the many-link shape for which the unchanged
+    planner is deterministic (link order relation with three and more chained entries)."""
+    uid = F.uniq("")
+    n = rng.choice([4, 5, 5])
+    fws = ["pa", "pa2", "pa3", "pa4", "pa5"]
+    rng.shuffle(fws)
+    keys = rng.sample([1, 2, 3, 4, 5, 6], rng.randint(1, 4))
+    srcs = []
+    for i in range(n):
+        ks = list(keys)
+        rng.shuffle(ks)
+        srcs.append({"name": f"S{uid}_{i}", "fw": fws[i], "key": f"k{uid}", "cols": {f"k{uid}": ks, f"v{uid}_{i}": [rng.randint(0, 9) * (10 ** i) for _ in ks]}})
+    forward = rng.random() < 0.5
+    links = [{"type": "inner", "left": i if forward else i + 1, "right": i + 1 if forward else i} for i in range(n - 1)]
+    rng.shuffle(links)
+    consumer = {"name": f"Z{uid}", "fw": fws[0] if forward else fws[n - 1], "feature": f"z{uid}", "parents": [f"v{uid}_{i}" for i in range(n)]}
+    return {"sources": srcs, "links": links, "consumer": consumer, "longchain": True}
+
+
 def gen_star_spec(rng: Any) -> Dict[str, Any]:
     """Three sources: one left source on framework X, two right sources on another framework Y, consumer on X, inner/left links
     from the left source to each right source - a three-source shape the unchanged planner handles in every mode."""
@@ -712,22 +733,144 @@ def build_link_request(spec: Dict[str, Any], hooks: Optional[Dict[str, Any]] = N
         classes[s["name"]] = F.make_group(s["name"], root_data=s["cols"], index_columns=[(s["key"],)], frameworks={F.FW_SHORT[s["fw"]]}, hooks=hooks,
                                           extra=extra_fn(s["name"]) if extra_fn else None)
     c = spec["consumer"]
-    expr: Any = ["col", c["parents"][0]]
-    for q in c["parents"][1:]:
-        expr = ["add", expr, ["col", q]]
-    classes[c["name"]] = F.make_group(c["name"], derived={c["feature"]: {"parents": c["parents"], "expr": expr}}, frameworks={F.FW_SHORT[c["fw"]]}, hooks=hooks,
-                                      extra=extra_fn(c["name"]) if extra_fn else None)
+    for g in link_groups(spec):
+        classes[g["name"]] = F.make_group(g["name"], derived=g["features"], frameworks={F.FW_SHORT[g["fw"]]}, hooks=hooks, inplace=bool(spec.get("inplace")),
+                                          extra=extra_fn(g["name"]) if extra_fn else None)
     links = set()
     for l in spec["links"]:
         a, b = spec["sources"][l["left"]], spec["sources"][l["right"]]
         links.add(getattr(Link, l["type"])(JoinSpec(classes[a["name"]], Index((a["key"],))), JoinSpec(classes[b["name"]], Index((b["key"],)))))
     fws = {F.FW_SHORT[s["fw"]] for s in spec["sources"]} | {F.FW_SHORT[c["fw"]]}
-    return classes, links, [c["feature"]], fws
+    feats = features_of(spec) if "request" in spec else [c["feature"]]
+    return classes, links, feats, fws
 
 
-def prepare_link(spec: Dict[str, Any], hooks: Optional[Dict[str, Any]] = None, extra_fn: Any = None) -> Any:
+def prepare_link(spec: Dict[str, Any], hooks: Optional[Dict[str, Any]] = None, extra_fn: Any = None, **kw: Any) -> Any:
     classes, links, feats, fws = build_link_request(spec, hooks, extra_fn)
-    return mloda.prepare(list(feats), compute_frameworks=fws, links=links, plugin_collector=F.collector(set(classes.values())))
+    return mloda.prepare(list(feats), compute_frameworks=fws, links=links, plugin_collector=F.collector(set(classes.values())), **kw)
+
+
+def gen_join_dag_spec(rng: Any, frameworks: Sequence[str] = ("pd", "pa", "py")) -> Dict[str, Any]:
+    """A join in the middle of a DAG: two sources (same framework, or the right one elsewhere), one link, a consumer group whose
+    features depend on different subsets of the two sources (x on both, y on one side only, ...) and further groups on top
+    of the consumer's features.  The key sets of the sources coincide (arithmetic on the joined rows never meets a null)."""
+    uid = F.uniq("")
+    fw = rng.choice(list(frameworks))
+    fw_r = fw if rng.random() < 0.7 else rng.choice(list(frameworks))
+    nrows = rng.randint(1, 4)
+    keys = rng.sample([1, 2, 3, 4, 5, 6], nrows)
+    srcs = []
+    for i in range(2):
+        ks = list(keys)
+        rng.shuffle(ks)
+        kname = f"k{uid}_{i}"
+        cols = {kname: ks}
+        for j in range(rng.randint(1, 2)):
+            cols[f"v{uid}_{i}{j}"] = [rng.randint(0, 9) for _ in ks]
+        srcs.append({"name": f"S{uid}_{i}", "fw": fw if i == 0 else fw_r, "key": kname, "cols": cols})
+    vals = [[c for c in s_["cols"] if c != s_["key"]] for s_ in srcs]
+    feats: Dict[str, Any] = {}
+
+    def mk(parents: List[str]) -> Dict[str, Any]:
+        expr: Any = ["col", parents[0]]
+        for q in parents[1:]:
+            expr = [rng.choice(["add", "sub"]), expr, ["col", q]]
+        if rng.random() < 0.5:
+            expr = ["add", expr, ["const", rng.randint(1, 5)]]
+        return {"parents": parents, "expr": expr}
+
+    feats[f"x{uid}"] = mk([rng.choice(vals[0]), rng.choice(vals[1])])
+    for j in range(rng.randint(0, 2)):
+        side = rng.choice([0, 1, 1])
+        feats[f"y{uid}_{j}"] = mk([rng.choice(vals[side])]) if rng.random() < 0.7 else mk([rng.choice(vals[0]), rng.choice(vals[1])])
+    consumer = {"name": f"Z{uid}", "fw": fw, "features": feats}
+    tops = []
+    avail = list(feats)
+    prev_top = f"x{uid}"
+    for k in range(rng.randint(0, 3)):
+        f = f"w{uid}_{k}"
+        par = [prev_top] if rng.random() < 0.6 else [rng.choice(avail)]
+        if rng.random() < 0.3 and len(avail) > 1:
+            par = par + [rng.choice([a for a in avail if a not in par])]
+        tops.append({"name": f"T{uid}_{k}", "fw": fw, "features": {f: mk(par)}})
+        avail.append(f)
+        prev_top = f
+    req = [avail[-1]] + [a for a in avail[:-1] if rng.random() < 0.5]
+    link = {"type": rng.choice(["inner", "left", "outer"]), "left": 0, "right": 1}
+    return {"sources": srcs, "links": [link], "consumer": consumer, "tops": tops, "request": [{"name": n, "options": {}} for n in req], "joindag": True}
+
+
+def link_groups(spec: Dict[str, Any]) -> List[Dict[str, Any]]:
+    """The derived groups of a link spec in the shape of a link-free spec's `groups` (name, fw, features)."""
+    c = spec["consumer"]
+    if "features" in c:
+        feats = c["features"]
+    else:
+        expr: Any = ["col", c["parents"][0]]
+        for q in c["parents"][1:]:
+            expr = ["add", expr, ["col", q]]
+        feats = {c["feature"]: {"parents": c["parents"], "expr": expr}}
+    return [{"name": c["name"], "fw": c["fw"], "features": feats}] + list(spec.get("tops", []))
+
+
+def jd_sides(spec: Dict[str, Any]) -> Dict[str, Set[int]]:
+    """For every derived feature of a join-DAG spec: the set of sources (0 = left, 1 = right of the link) it descends from."""
+    src_of = {c: i for i, s_ in enumerate(spec["sources"]) for c in s_["cols"]}
+    defs = {f: d for g in link_groups(spec) for f, d in g["features"].items()}
+    memo: Dict[str, Set[int]] = {}
+
+    def sides(f: str) -> Set[int]:
+        if f in src_of:
+            return {src_of[f]}
+        if f not in memo:
+            memo[f] = set().union(*[sides(p_) for p_ in defs[f]["parents"]])
+        return memo[f]
+
+    return {f: sides(f) for f in defs}
+
+
+def jd_partial_right(spec: Dict[str, Any]) -> bool:
+    """The consumer group of the join computes, next to a feature over both sources, a feature that descends from the right
+    source only (input class of known findings: such a feature is calculated on the joined left object although it is a
+    descendant of the right object only)."""
+    sd = jd_sides(spec)
+    right = spec["links"][0]["right"]
+    cons = spec["consumer"]["features"]
+    return any(sd[f] == {right} for f in cons) and any(len(sd[f]) == 2 for f in cons)
+
+
+def jd_top_on_right_only(spec: Dict[str, Any]) -> bool:
+    """... and a later group consumes that right-only feature."""
+    if not jd_partial_right(spec):
+        return False
+    sd = jd_sides(spec)
+    right = spec["links"][0]["right"]
+    cons = spec["consumer"]["features"]
+    return any(p_ in cons and sd[p_] == {right} for t in spec.get("tops", []) for d in t["features"].values() for p_ in d["parents"])
+
+
+def join_reference(spec: Dict[str, Any]) -> Dict[str, List[Any]]:
+    """Reference values of a join-DAG spec (two sources whose key sets coincide and are unique): rows keyed by the join key."""
+    a, b = spec["sources"]
+    rows: Dict[Any, Dict[str, Any]] = {}
+    for s_ in (a, b):
+        for i, k in enumerate(s_["cols"][s_["key"]]):
+            rows.setdefault(k, {}).update({c: v[i] for c, v in s_["cols"].items()})
+    defs = {f: d for g in link_groups(spec) for f, d in g["features"].items()}
+
+    def val(row: Dict[str, Any], f: str) -> Any:
+        if f not in row:
+            for p_ in defs[f]["parents"]:
+                val(row, p_)
+            row[f] = F.eval_expr(defs[f]["expr"], row)
+        return row[f]
+
+    out: Dict[str, List[Any]] = {}
+    for k in sorted(rows):
+        for f in defs:
+            out.setdefault(f, []).append(val(rows[k], f))
+        out.setdefault("__key__", []).append(k)
+    return out
 
 
 def gen_units_spec(rng: Any, nunits: int = 2, frameworks: Sequence[str] = ("pa", "pd")) -> Dict[str, Any]:
